@@ -260,6 +260,30 @@ func main() {
 		res := result{ID: scr.ID}
 		for opIndex, op := range scr.Ops {
 			mark(scr.ID, opIndex)
+			// "key": {"$lek": k, "attrs": [...]} stands for the item named by the LastEvaluatedKey observed at step k
+			// (its attributes listed in attrs: the key attributes of the table)
+			if e, ok := op["key"].(map[string]interface{}); ok {
+				if k, ok := e["$lek"].(float64); ok {
+					key := map[string]interface{}{}
+					if int(k) < len(res.Obs) {
+						if raw, err := json.Marshal(res.Obs[int(k)]["lek"]); err == nil {
+							var plain map[string]interface{}
+							if json.Unmarshal(raw, &plain) == nil {
+								for _, a := range e["attrs"].([]interface{}) {
+									if v, ok := plain[a.(string)]; ok {
+										key[a.(string)] = v
+									}
+								}
+							}
+						}
+					}
+					op["key"] = key
+					o := s.run(op)
+					o["resolved_key"] = key
+					res.Obs = append(res.Obs, o)
+					continue
+				}
+			}
 			// "esk": {"$lek": k} stands for the LastEvaluatedKey observed at step k
 			if e, ok := op["esk"].(map[string]interface{}); ok {
 				if k, ok := e["$lek"].(float64); ok {
